@@ -233,3 +233,27 @@ func (g *Gen) bytesOfString(c *FnCtx, s Term) Term {
 	g.note("[]byte(string) conversions are identified by the string value")
 	return mkSlice(base, tZero, mk(SInt, "strlen", s), mk(SInt, "strlen", s))
 }
+
+// closureOfLocal: v is a load of a local variable that is assigned exactly once, a closure literal:
+// a call through it is a call of that closure.
+func closureOfLocal(v ssa.Value) *ssa.MakeClosure {
+	ld, ok := v.(*ssa.UnOp)
+	if !ok {
+		return nil
+	}
+	a, ok := ld.X.(*ssa.Alloc)
+	if !ok {
+		return nil
+	}
+	var found *ssa.MakeClosure
+	for _, ref := range *a.Referrers() {
+		if st, ok := ref.(*ssa.Store); ok && st.Addr == a {
+			mc, isClosure := st.Val.(*ssa.MakeClosure)
+			if !isClosure || found != nil {
+				return nil
+			}
+			found = mc
+		}
+	}
+	return found
+}
